@@ -123,6 +123,10 @@ func extractTimestamp(data any, tsProp string, timeUnit time.Duration) (time.Tim
 		warnUnplaceableTimestamp(tsProp)
 		return time.Time{}, false
 	}
+	if timeUnit > time.Second {
+		// TIMEUNIT='mi' | 'hh' | 'dd': cast.ConvertIntToTime knows s / ms / us / ns only and reads any other unit as seconds
+		return time.Unix(0, timestampInt*int64(timeUnit)), true
+	}
 	return cast.ConvertIntToTime(timestampInt, timeUnit), true
 }
 
